@@ -15,6 +15,20 @@ claim("C01", "exploration",
       "Bounded exhaustive input-space exploration of the real code against an independent RFC 4226 model: every truncation window of a boundary set (thorough: all 2^32) x digits 1..10 x (sum length, offset) through the real truncate/format stage; the same values injected as HMAC output into the real GenerateHOTP pipeline; full product of secrets x spellings x counters x digits x hashes end to end, and all 256x256 (digits, hash) values for the error clause.",
       TRUST, "exhaustive enumeration of a finite input alphabet against a reference model (small-scope model checking of a pure function)", "DESIGN.md §4 C01")
 
+EXH = "exhaustive enumeration of a finite input alphabet against a reference model (small-scope model checking of a pure function)"
+claim("C02", "exploration", "Every (period, instant) of a dense grid (periods 0..64 with every whole second of four steps plus boundaries far from the epoch; large periods at the boundaries of steps 0,1,2,top) x digits x hash through GenerateTOTP against reference HOTP at floor(unix/period), each instant in all nanosecond/zone/monotonic variants, each code validated at its own instant; nil parameters and period 0 included.", TRUST, EXH, "DESIGN.md §4 C02")
+claim("C03", "exploration", "Every (secret, window 0..10, counter incl. 2^31/2^32/2^63 boundaries and c+s=2^64-1, digits 1..10, hash) configuration x every submitted string (codes at distance -(s+3)..+(s+3), edits, truncations, extensions, whitespace/Unicode-digit variants; the COMPLETE code space for <= 4 digits, thorough <= 6) through ValidateHOTP against exact set membership in the reference window; refused windows must do zero derivations (counted at the HMAC-constructor seam).", TRUST, EXH + "; deterministic work bound by counting derivations at an environment seam", "DESIGN.md §4 C03")
+claim("C04", "exploration", "As C03 over time steps: periods {0,1,29,30,31,3600,2^32} x steps {s,s+1,s+3,10^6,top-s} x offsets inside the step x skew 0..10 x digits x hash x submitted strings (complete code space for <= 4 digits) through ValidateTOTP against the reference step-window set; refused skews: (false,error) and zero derivations; accepted: <= 2s+1 derivations.", TRUST, EXH + "; deterministic work bound by counting derivations at an environment seam", "DESIGN.md §4 C04")
+claim("C05", "exploration", "All 45 registered names, every accepted string of the naming grammar and hand-built configurations (32 field subsets x 6 challenge formats x 3 password hashes x time steps x 3 hashes x digits 4..10 x 5 suite texts, as SuiteConfig and via NewSuite) x rotating admissible inputs at the boundary lengths x keys through GenerateOCRA against an independent RFC 6287 implementation; unselected fields varied without effect.", TRUST, EXH, "DESIGN.md §4 C05")
+claim("C06", "exploration", "For each suite/input of a reduced C05 grid: every submitted string (generated code, neighbours for counter/challenge/timestamp/sibling suite, edits, complete 4-digit code space) validates iff it equals the generator's output; every failure cause (9 undecodable secrets, 10 invalid suites, 16 inadmissible inputs, per digits x hash) gives (false, error) without panic.", "The oracle is the library's own generator (C05 decides its correctness). " + TRUST, EXH, "DESIGN.md §4 C06")
+claim("C07", "exploration", "All byte strings of length 0..2 (thorough 0..3) and patterned strings of every length 3..256 in every spelling (padding count x case masks x leading/trailing white space) through DecodeSecret against a bit-wise RFC 4648 reference; all texts up to length 4 (thorough 6) over a 15-symbol accept/reject alphabet and all 8-symbol texts over the case-folding traps classified must-accept / must-reject / not-decided; six entry points compared across spellings.", TRUST + " Non-zero trailing bits, excess '=' and interior CR/LF are deliberately not decided.", EXH, "DESIGN.md §4 C07")
+claim("C08", "model_checking", "The random source is an environment the harness owns: every constant stream, the position-tag stream with every (position,value) substitution, all 256 enum values, every call history of <= 3 calls, and every schedule of short reads of the source within a deviation bound (thorough: all 2^19 compositions of 20 bytes) explored by choice-vector DFS; state = stream offset, transition = one call / one Read.", "crypto/rand.Reader substitution is honoured by go1.24's rand.Read; that the default Reader is the OS CSPRNG is Go's guarantee.", "stateless exploration (choice-vector DFS, deviation-bounded) of environment answers + explicit history enumeration on the real code", "DESIGN.md §4 C08")
+claim("C13", "exploration", "Every validator call of the C03/C04/C06 enumerations (accepting, rejecting, every failure cause) checked for the (bool,error) pair shape and for disclosure of the secret (base32 any case / raw / hex) or an accepted code (>= 6 digits) in the error text; 15 other failing operations x 30 secret spellings checked for disclosure.", TRUST, EXH, "DESIGN.md §4 C13")
+claim("C14", "exploration", "Complete grid of 250 880 suite configurations through SuiteConfig.Validate, NewSuite, GenerateOCRA, ValidateOCRA; per usable field shape every length nil,0..140 of each field alone and every pair of fields x pair of lengths (quick: 20 boundary lengths; thorough: all 141^2) against an admission predicate written from the property text.", TRUST, EXH, "DESIGN.md §4 C14")
+claim("C15", "exploration", "All advertised names, every string of the RFC 6287 naming grammar (digits 0..11, all field combinations; thorough: every time value, ~1.4 M strings) and ~70 malformed classes through NewRawSuite / IsKnownSuite / SuiteConfigFromRaws against an independent parser of the naming scheme; accepted => configuration and reported name equal what the string says.", TRUST, EXH, "DESIGN.md §4 C15")
+claim("C16", "exploration", "Every (issuer, account) pair over a 30-atom alphabet (spaces, %, /, ?, #, &, =, +, non-ASCII, percent-escape look-alikes; lengths 1..2) x rotating (secret, digits, hash, period) x both types through Generate*URL -> String -> url.Parse -> ParseOTPAuthURL, identity after documented defaulting; hand-written URLs with 26 number spellings for digits/period x 5 letter cases of the type must fail or return exactly the number.", TRUST + " net/url of the standard library.", EXH, "DESIGN.md §4 C16")
+claim("C17", "exploration", "Every helper on every text of its alphabet (all decimal strings <= 4 over {0-9,+,-,space,a}; all hex strings <= 3 over {0,9,a,F,g}; lengths x widths 0..40; all 3^5 valid/invalid/empty field combinations; every decimal question of 1..5 digits; patterned questions of 6..64 digits) against independent encoders; end to end through GenerateOCRA for every numeric registered suite and hand-built numeric suites, anchored by RFC 6287 App. C.", TRUST, EXH, "DESIGN.md §4 C17")
+
 if __name__ == "__main__":
     checks = []
     for pid in ids:
